@@ -775,6 +775,12 @@ fn process_attribute<'input>(
             return Err(Error::UnexpectedXmlnsUri(pos));
         }
 
+        // Check for duplicated namespaces.
+        if ctx.doc.namespaces.exists(ctx.namespace_start_idx, None) {
+            let pos = ctx.doc.text_pos_at(range.start);
+            return Err(Error::DuplicatedNamespace(String::new(), pos));
+        }
+
         ctx.doc.namespaces.push_ns(None, value)?;
     } else {
         #[cfg(not(feature = "positions"))]
